@@ -872,7 +872,13 @@ impl Campaign for C16 {
                 cs.sort_by_key(|c| c.1);
                 for w in cs.windows(2) {
                     let (c1, c2) = (w[0], w[1]);
-                    let rearmed = all.iter().any(|(call, e)| matches!(e, DepEv::Onboard { tx: t2, ret, .. } if t2 == tx && *call < c2.1 && *ret > c1.0));
+                    // The claim that *returned* first need not be the one that took effect first (a
+                    // thread can be descheduled inside next() for a long time), so a re-arming
+                    // operation may lie between the two claims in either order.
+                    let rearmed = all.iter().any(|(call, e)| {
+                        matches!(e, DepEv::Onboard { tx: t2, ret, .. } if t2 == tx &&
+                            ((*call < c2.1 && *ret > c1.0) || (*call < c1.1 && *ret > c2.0)))
+                    });
                     if !rearmed {
                         rep.findings.push(finding(
                             "C16",
